@@ -9,17 +9,39 @@ from common import exc_kind
 
 RULE = ("operation sequences over the mutator alphabet of each vertex-based class (all settable properties found by "
         "reflection with targets current*factor / random centres / bad targets, plus diagonalize_inertia, merge_faces, "
-        "sort_faces, to_hoomd): exhaustive depth 1 and sampled depth 2 (quick) / exhaustive depth 2 + sampled depth 3 "
-        "(thorough) plus random walks, from a 'regular' (box/square: circum- and in-balls exist) and a 'generic' (chiral, "
-        "off-origin) base shape of each of the six classes; after EVERY step all public observables of the live object "
-        "are compared with a freshly constructed object; distinct = distinct (class, flavour, op sequence)")
+        "sort_faces, to_hoomd, plus the reads that fill instance-level caches: edges, get_face_area, face_centroids): "
+        "exhaustive depth 1 and sampled depth 2 (quick) / exhaustive depth 2 + sampled depth 3 (thorough) plus random "
+        "walks, from a 'regular' (box/square: circum- and in-balls exist) and a 'generic' (chiral, off-origin) base shape "
+        "of each of the six classes, fan-triangulated and shuffled triangulated prisms for Polyhedron, nearly coplanar "
+        "convex polyhedra, integer-coordinate (exactly planar) polyhedra with the exact Lean certificate of the "
+        "history theorem's hypothesis; after EVERY step (thorough tier: after the last step of the exhaustively enumerated "
+        "depth-2/3 sequences, whose prefixes are sequences of their own) all public observables of the live object (properties in random "
+        "order, method queries, repr, to_json) are compared with a freshly constructed object, and the private state with "
+        "the Lean state machines; distinct = distinct (class, flavour, op sequence)")
 ASSUMPTIONS = [
     "oracle = a freshly constructed shape with the same current vertices (and faces, normal, rounding radius)",
     "face-indexed observables are compared by the face's vertex set (face order is not part of the property)",
-    "minimal bounding ball (miniball, randomised) compared at 1e-6 relative; everything else at 1e-9*scale",
+    "minimal bounding ball (external, randomised miniball; read under seeded random / numpy.random): accepted when equal "
+    "to the fresh object's at 1e-6, or when it contains the current vertices and its radius is within 25 % of the fresh "
+    "one's (its minimality is C13's business); everything else at 1e-9*scale",
+    "external inputs of the Lean state machines are recorded from the live object (eigh matrix, re-oriented simplices, "
+    "face lists after the per-face vertex ordering, scipy component labels) and their contracts evaluated per run",
 ]
 
 METHODS = ["diagonalize_inertia", "merge_faces", "sort_faces", "to_hoomd"]
+# queries that fill an instance-level cache (functools.cached_property `edges`; the attributes `_simplex_areas` /
+# `_face_centroids` that get_face_area / face_centroids store): part of the history, because whether a later mutator
+# must invalidate something depends on what has been read before
+READS = {"Polyhedron": ["edges"],
+         "ConvexPolyhedron": ["edges", "get_face_area", "face_centroids", "get_face_area_total"]}
+
+
+def do_read(obj, name):
+    if name == "get_face_area":
+        return obj.get_face_area()
+    if name == "get_face_area_total":
+        return obj.get_face_area("total")
+    return getattr(obj, name)
 
 
 def alphabet(obj):
@@ -34,6 +56,8 @@ def alphabet(obj):
     for m in METHODS:
         if callable(getattr(obj, m, None)):
             ops.append(("call", m))
+    for r in READS.get(type(obj).__name__, ()):
+        ops.append(("read", r))
     return ops
 
 
@@ -47,7 +71,8 @@ def concretise(rng, op):
         r = rng.random()
         if r < 0.15:
             return ["setbad", name, float(rng.choice([0.0, -1.0, float("nan")]))]
-        return [kind, name, float(rng.choice([0.5, 2.0, 1.7, 0.31]))]
+        # (balanced: the product of the factors is ~1, so that long walks neither collapse nor blow up the shape)
+        return [kind, name, float(rng.choice([0.5, 2.0, 1.7, 0.31, 3.2, 0.6]))]
     return [kind, name, None]
 
 
@@ -75,17 +100,38 @@ def apply_op(obj, op):
         setattr(obj, name, arg)
     elif kind == "call":
         getattr(obj, name)()
+    elif kind == "read":
+        do_read(obj, name)
     else:
         raise ValueError(kind)
 
 
-def run_history(ctx, cls, flavour, base_seed, ops):
-    rng = np.random.default_rng(base_seed)
-    obj = sc.base_shape(rng, cls, flavour)
+_BASE_CACHE = {}
+
+
+def base_of(cls, flavour, base_seed):
+    """sc.base_shape(default_rng(base_seed), cls, flavour); the three passes over one history (oracle, two model
+    correspondences) share the construction (a deep copy each)."""
+    import copy
+    key = (cls, flavour, int(base_seed), id(sc.shapes_mod()))
+    if key not in _BASE_CACHE:
+        _BASE_CACHE.clear()
+        _BASE_CACHE[key] = sc.base_shape(np.random.default_rng(base_seed), cls, flavour)
+    return copy.deepcopy(_BASE_CACHE[key])
+
+
+def run_history(ctx, cls, flavour, base_seed, ops, prefixes_covered=False):
+    obj = base_of(cls, flavour, base_seed)
     case = {"cls": cls, "flavour": flavour, "base_seed": int(base_seed), "ops": ops}
     size = sc.size_of(obj)
+    import copy
+    props = sc.public_properties(type(obj))
     for step, op in enumerate(ops):
-        pre = sc.observe(obj)
+        # every cached / lazily computed attribute must have been filled BEFORE the operation: at step 0 by a full
+        # observation, later by the (randomly ordered) observation that ended the previous step; what the shape looked
+        # like before the operation is kept as a deep copy and only observed when the operation raises
+        pre = sc.observe(obj, json_names=[]) if step == 0 else None
+        snap = copy.deepcopy(obj) if step > 0 else None
         pre_v = np.array(obj.vertices, dtype=float)
         pre_ch = chirality(pre_v) if pre_v.shape[1] == 3 and cls in ("ConvexPolyhedron", "Polyhedron", "ConvexSpheropolyhedron") else 0.0
         opname = "%s.%s" % (cls, op[1] + ("=" if op[0].startswith("set") else "()"))
@@ -96,7 +142,9 @@ def run_history(ctx, cls, flavour, base_seed, ops):
             raised = e
         size = max(size, sc.size_of(obj)) if np.all(np.isfinite(np.asarray(obj.vertices, dtype=float))) else size
         if raised is not None:
-            post = sc.observe(obj)
+            if pre is None:
+                pre = sc.observe(snap, json_names=[])
+            post = sc.observe(obj, json_names=[])
             diffs = sc.compare(pre, post, size)
             if diffs:
                 ctx.fail("%s:raises-but-changes-shape" % opname,
@@ -112,6 +160,18 @@ def run_history(ctx, cls, flavour, base_seed, ops):
             # degenerate so that no fresh shape exists -> stop the history
             ctx.count("bad-target-accepted")
             return
+        if cls == "ConvexPolyhedron" and op[1] == "merge_faces" and not (
+                len(obj._equations) == len(obj._faces) == len(obj._coplanar_simplices)):
+            ctx.fail("ConvexPolyhedron.merge_faces():caches-misaligned",
+                     "merge_faces merged faces of a ConvexPolyhedron but left _equations / _coplanar_simplices as they "
+                     "were: %d faces, %d plane equations, %d coplanar-simplex groups"
+                     % (len(obj._faces), len(obj._equations), len(obj._coplanar_simplices)), dict(case, step=step), "")
+            return
+        if prefixes_covered and step < len(ops) - 1:
+            # short (exhaustively enumerated) sequences: their proper prefixes are sequences of their own, so only fill
+            # the caches here (what the comparison with a fresh object would have done as a side effect) and go on
+            sc.observe(obj, np.random.default_rng([int(base_seed), step, len(ops)]), json_names=[])
+            continue
         try:
             fresh = sc.fresh_of(obj)
         except Exception as e:
@@ -119,8 +179,17 @@ def run_history(ctx, cls, flavour, base_seed, ops):
                      "after %s the current vertices no longer construct a %s (%s)" % (opname, cls, exc_kind(e)),
                      dict(case, step=step), repr(e))
             return
-        live = sc.observe(obj, np.random.default_rng([int(base_seed), step, len(ops)]))
-        diffs = sc.compare(live, sc.observe(fresh), size)
+        if cls in ("ConvexPolyhedron", "ConvexSpheropolyhedron") and _fresh_split_coplanar(obj, fresh):
+            # after many floating-point steps the vertices of a face with more than three vertices (cube) are no longer
+            # coplanar within the 2e-15 of ConvexPolyhedron._combine_simplices: the FRESH constructor splits the face.
+            # Not something a mutator could have prevented; the combinatorics of the two objects are not comparable.
+            ctx.count("history-stopped:rounding-split-a-coplanar-face")
+            return
+        order_rng = np.random.default_rng([int(base_seed), step, len(ops)])
+        # to_json: a few attributes per step (every attribute over the steps of a run), the same for both objects
+        jn = [props[i] for i in order_rng.permutation(len(props))[:4]]
+        live = sc.observe(obj, order_rng, json_names=jn)
+        diffs = sc.compare(live, sc.observe(fresh, json_names=jn), size, cond=sc.cond_of(obj))
         if diffs:
             ctx.fail("%s:stale:%s" % (opname, diffs[0][0]),
                      "after %s the observable %s differs from a freshly constructed shape" % (opname, diffs[0][0]),
@@ -137,6 +206,26 @@ def run_history(ctx, cls, flavour, base_seed, ops):
                 ctx.fail("%s:mirrors" % opname, "diagonalize_inertia mirrored the shape", dict(case, step=step), "")
                 return
     return
+
+
+def _fresh_split_coplanar(obj, fresh):
+    """the fresh convex polyhedron has MORE faces than the live one, each of them part of a live face, and the pieces
+    of one live face are coplanar to 1e-9: rounding made the constructor's 2e-15 coplanarity test fail."""
+    lo = obj.polyhedron if hasattr(obj, "polyhedron") else obj
+    fo = fresh.polyhedron if hasattr(fresh, "polyhedron") else fresh
+    lf = [frozenset(int(i) for i in f) for f in lo.faces]
+    ff = [frozenset(int(i) for i in f) for f in fo.faces]
+    if set(lf) == set(ff) or len(ff) <= len(lf):
+        return False
+    if len(lo._equations) != len(lf):
+        return False
+    for k, g in enumerate(ff):
+        owners = [i for i, f in enumerate(lf) if g <= f]
+        if not owners:
+            return False
+        if not np.allclose(fo._equations[k][:3], lo._equations[owners[0]][:3], atol=1e-9):
+            return False
+    return True
 
 
 MODELLED_CALLS = {"diagonalize_inertia", "to_hoomd"}
@@ -257,8 +346,7 @@ def model_history(ctx, base_seed, flavour, ops, cls="ConvexPolyhedron"):
     private attributes, the same targets and the recorded external inputs (eigh matrix, re-oriented simplices,
     values of getters that are not closed forms of the model)."""
     from common import L
-    rng = np.random.default_rng(base_seed)
-    obj = sc.base_shape(rng, cls, flavour)
+    obj = base_of(cls, flavour, base_seed)
     case = {"cls": cls, "flavour": flavour, "base_seed": int(base_seed), "ops": ops, "model": True}
     core = obj.polyhedron if cls == "ConvexSpheropolyhedron" else obj   # where the CP caches live
     r0 = float(obj.radius) if cls == "ConvexSpheropolyhedron" else None
@@ -304,6 +392,12 @@ def model_history(ctx, base_seed, flavour, ops, cls="ConvexPolyhedron"):
                     code = [sc_[0], int(sc_[1]), cur, float(tgt)]
         elif kind == "call" and name not in MODELLED_CALLS:
             return
+        elif kind == "read":
+            try:
+                do_read(obj, name)      # no effect on the attributes these state machines hold
+            except Exception:
+                return
+            continue
         # ---- run the step on the live object, recording the external inputs
         try:
             if kind == "call" and name == "diagonalize_inertia":
@@ -446,9 +540,328 @@ def model_history(ctx, base_seed, flavour, ops, cls="ConvexPolyhedron"):
                  {"hoomd.vertices": 1}, size)
 
 
+class _FacesRecorder:
+    """Record (a) the face lists at every `_find_neighbors()` call — the first call inside sort_faces / merge_faces sees
+    the faces right after the per-face vertex ordering, which is the external input of the Lean `sortFaces` /
+    `mergeFaces` — and (b) the labels `connected_components` hands to merge_faces."""
+
+    def __enter__(self):
+        import coxeter.shapes.polyhedron as ph
+        self.ph = ph
+        self.faces, self.labels = [], []
+        self.orig_fn = ph.Polyhedron._find_neighbors
+        self.orig_cc = ph.connected_components
+        rec = self
+
+        def _find_neighbors(obj):
+            rec.faces.append([[int(i) for i in f] for f in obj._faces])
+            return rec.orig_fn(obj)
+
+        def connected_components(*a, **kw):
+            r = rec.orig_cc(*a, **kw)
+            rec.labels.append([int(x) for x in r[1]])
+            return r
+        ph.Polyhedron._find_neighbors = _find_neighbors
+        ph.connected_components = connected_components
+        return self
+
+    def __exit__(self, *exc):
+        self.ph.Polyhedron._find_neighbors = self.orig_fn
+        self.ph.connected_components = self.orig_cc
+        return False
+
+
+class _Cursor:
+    def __init__(self, toks):
+        self.t, self.i = toks, 0
+
+    def one(self):
+        v = self.t[self.i]
+        self.i += 1
+        return v
+
+    def floats(self, k):
+        out = np.array(self.t[self.i:self.i + k], dtype=float)
+        self.i += k
+        return out
+
+    def nats(self):
+        n = self.one()
+        out = [int(x) for x in self.t[self.i:self.i + n]]
+        self.i += n
+        return out
+
+    def natlists(self):
+        return [self.nats() for _ in range(self.one())]
+
+    def edges(self):
+        n = self.one()
+        out = [(int(self.t[self.i + 2 * k]), int(self.t[self.i + 2 * k + 1])) for k in range(n)]
+        self.i += 2 * n
+        return out
+
+    def opt(self, fn):
+        return fn() if self.one() else None
+
+    def cp(self, nv, nf, ns):
+        return {"vertices": self.floats(3 * nv).reshape(nv, 3), "eqN": self.floats(3 * nf).reshape(nf, 3),
+                "eqD": self.floats(nf), "seqN": self.floats(3 * ns).reshape(ns, 3), "seqD": self.floats(ns),
+                "volume": self.floats(1)[0], "area": self.floats(1)[0], "centroid": self.floats(3)}
+
+
+def _edge_cache(obj):
+    e = obj.__dict__.get("edges")
+    return [0] if e is None else [1, L([[int(a), int(b)] for a, b in np.asarray(e)])]
+
+
+def _nl(lists):
+    from common import L as _L
+    return _L([_L([int(i) for i in f]) for f in lists])
+
+
+FULL_CLASSES = ("Polyhedron", "ConvexPolyhedron")
+READ_CODE = {"edges": 8, "get_face_area": 9, "face_centroids": 10, "get_face_area_total": 11}
+
+
+def model_history_full(ctx, base_seed, flavour, ops, cls, obj=None):
+    """B for the full state machines of Model/Mutable3.lean (Polyhedron, ConvexPolyhedron): every mutator including
+    merge_faces / sort_faces, and the reads that fill instance-level caches, on the driver; compared: vertices, plane
+    equations, faces, neighbours, the `edges` entry of the instance __dict__, `_simplex_areas`, `_face_centroids`,
+    the closed-form getters, what the reads and to_hoomd returned, the labels of merge_faces."""
+    from common import L
+    if obj is None:
+        obj = base_of(cls, flavour, base_seed)
+    case = {"cls": cls, "flavour": flavour, "base_seed": int(base_seed), "ops": ops, "model": True, "full": True}
+    is_cp = cls == "ConvexPolyhedron"
+    if is_cp:
+        sa, fcs = getattr(obj, "_simplex_areas", None), getattr(obj, "_face_centroids", None)
+        toks = _cp_tokens(obj) + [_nl(obj._faces), _nl(obj._coplanar_simplices), _nl(obj._neighbors)] + _edge_cache(obj)
+        toks += [0] if sa is None else [1, L([float(x) for x in sa])]
+        toks += [0] if fcs is None else [1, L(list(np.asarray(fcs, dtype=float)))]
+    else:
+        toks = [L(list(np.array(obj.vertices))), _nl(obj._faces), L(list(obj._equations[:, :3])),
+                L([float(x) for x in obj._equations[:, 3]]), 1 if obj._faces_are_convex else 0, _nl(obj._neighbors)]
+        toks += _edge_cache(obj)
+    coded, expect = [], []
+    hoomd = last = None
+    lasts = {}
+    labels = None
+    for op in ops:
+        kind, name, arg = op
+        code = None
+        raised = None
+        try:
+            if kind == "setvec":
+                if is_cp:
+                    code = [3, np.array(arg, dtype=float)]
+                else:
+                    code = [3, np.array(obj.centroid, dtype=float), np.array(arg, dtype=float)]
+                apply_op(obj, op)
+            elif kind in ("setfac", "setbad"):
+                sc_ = _size_code(cls, name)
+                try:
+                    cur = float(getattr(obj, name))
+                except Exception:
+                    cur = None
+                if cur is not None:
+                    tgt = cur * arg if kind == "setfac" else arg
+                    code = [sc_[0], float(tgt)] if sc_[1] == "plain" else [sc_[0], cur, float(tgt)]
+                apply_op(obj, op)
+            elif kind == "read":
+                lasts[name] = do_read(obj, name)
+                if name == "edges":
+                    lasts[name] = [(int(a), int(b)) for a, b in np.asarray(lasts[name])]
+                code = [READ_CODE[name]]
+            elif kind == "call" and name == "diagonalize_inertia":
+                old_simp = np.array(obj.simplices) if is_cp else None
+                with _EighRecorder() as rec:
+                    obj.diagonalize_inertia()
+                P = rec.P
+                if P is None:
+                    return
+                if not np.allclose(P.T @ P, np.eye(3), atol=1e-9):
+                    ctx.disagree("contract:IsOrth", case, P.tolist())
+                    return
+                code = [4, P]
+                if is_cp:
+                    new_simp = np.array(obj.simplices)
+                    par = {_row_parity(a, b) for a, b in zip(old_simp, new_simp)}
+                    sv = float(np.sum(np.linalg.det(np.array(obj.vertices)[new_simp])) / 6)
+                    if len(old_simp) != len(new_simp) or par not in ({1}, {-1}) or not sv >= 0:
+                        ctx.disagree("contract:SortContract", case, [sorted(par), sv])
+                        return
+                    code.append(L([[int(x) for x in r] for r in new_simp]))
+            elif kind == "call" and name == "to_hoomd":
+                if is_cp:
+                    hoomd = obj.to_hoomd()
+                    code = [5]
+                else:
+                    with _Recorder(type(obj), "centroid") as rec:
+                        hoomd = obj.to_hoomd()
+                    if len(rec.values) < 2 or not np.array_equal(rec.values[0], rec.values[1]):
+                        ctx.disagree("to_hoomd:centroid-reads", case, len(rec.values))
+                        return
+                    code = [5, rec.values[0], rec.values[-1]]
+                hoomd = dict(hoomd, vertices=np.array(hoomd["vertices"], dtype=float, copy=True))
+            elif kind == "call" and name in ("sort_faces", "merge_faces"):
+                with _FacesRecorder() as rec:
+                    try:
+                        getattr(obj, name)()
+                    except Exception as e:          # any kind: the model has one error channel
+                        raised = e
+                if not rec.faces:
+                    if raised is None:
+                        ctx.disagree(name + ":no-_find_neighbors-call", case, "")
+                        return
+                    # raised at the guard, before anything happened: any faces1 will do
+                    rec.faces.append([[int(i) for i in f] for f in obj._faces])
+                code = [6 if name == "sort_faces" else 7, _nl(rec.faces[0])]
+                if name == "merge_faces" and rec.labels:
+                    labels = rec.labels[-1]
+                ctx.count("model-op:" + name)
+            else:
+                return
+        except ValueError as e:
+            raised = e
+        except Exception:
+            if code is None:
+                continue
+            return
+        if code is None:
+            if raised is not None:
+                continue
+            return
+        coded.append(code)
+        expect.append(0 if raised is None else 1)
+    if not coded:
+        return
+    opname = "cpfull.run" if is_cp else "phfull.run"
+    r = ctx.driver.F(opname, *toks, len(coded), *[x for c in coded for x in c])
+    n = len(coded)
+    log, cur = [int(x) for x in r[:n]], _Cursor(r[n:])
+    ctx.count("model-histories-full")
+    ctx.count("model-full-cls:" + cls)
+    if log != expect:
+        ctx.disagree(opname + ":raise-pattern", case, [log, expect])
+        return
+    size = sc.size_of(obj)
+    nv = len(obj.vertices)
+
+    def same(key, got, live):
+        if got != live:
+            ctx.disagree(opname + ":" + key, case, [str(got)[:400], str(live)[:400]])
+            return False
+        return True
+    live_faces = [[int(i) for i in f] for f in obj._faces]
+    live_nb = [[int(i) for i in f] for f in obj._neighbors]
+    live_cache = obj.__dict__.get("edges")
+    live_cache = None if live_cache is None else [(int(a), int(b)) for a, b in np.asarray(live_cache)]
+    if is_cp:
+        nf, ns = cur.one(), cur.one()
+        if nf != len(obj._equations) or ns != len(obj._simplex_equations):
+            ctx.disagree(opname + ":equation-counts", case, [nf, len(obj._equations), ns, len(obj._simplex_equations)])
+            return
+        got = cur.cp(nv, nf, ns)
+        if not _compare(ctx, opname, case, got, _cp_live(obj), CP_DEG, size):
+            return
+    else:
+        vs = cur.floats(3 * nv).reshape(nv, 3)
+        nf = cur.one()
+        if nf != len(obj._equations):
+            ctx.disagree(opname + ":equation-count", case, [nf, len(obj._equations)])
+            return
+        got = {"vertices": vs, "eqN": cur.floats(3 * nf).reshape(nf, 3), "eqD": cur.floats(nf)}
+    if not is_cp:
+        live = {"vertices": np.array(obj.vertices), "eqN": obj._equations[:, :3], "eqD": obj._equations[:, 3]}
+        if not _compare(ctx, opname, case, got, live, {"vertices": 1, "eqN": 0, "eqD": 1}, size):
+            return
+    if not (same("faces", cur.natlists(), live_faces) and same("neighbors", cur.natlists(), live_nb)
+            and same("edges-cache", cur.opt(cur.edges), live_cache)):
+        return
+    if is_cp:
+        g_sa = cur.opt(lambda: cur.floats(cur.one()))
+        g_fc = cur.opt(lambda: (lambda k: cur.floats(3 * k).reshape(k, 3))(cur.one()))
+        l_sa, l_fc = getattr(obj, "_simplex_areas", None), getattr(obj, "_face_centroids", None)
+        if (g_sa is None) != (l_sa is None) or (g_fc is None) != (l_fc is None):
+            ctx.disagree(opname + ":cache-presence", case, [g_sa is None, l_sa is None, g_fc is None, l_fc is None])
+            return
+        if g_sa is not None and not _compare(ctx, opname, case, {"_simplex_areas": g_sa},
+                                             {"_simplex_areas": np.asarray(l_sa, dtype=float)}, {"_simplex_areas": 2}, size):
+            return
+        if g_fc is not None and not _compare(ctx, opname, case, {"_face_centroids": g_fc},
+                                             {"_face_centroids": np.asarray(l_fc, dtype=float)}, {"_face_centroids": 1}, size):
+            return
+        hv = cur.floats(3 * nv).reshape(nv, 3)
+        hc, hvol = cur.floats(3), cur.floats(1)[0]
+        if hoomd is not None:
+            if not _compare(ctx, opname, case, {"hoomd.vertices": hv, "hoomd.centroid": hc, "hoomd.volume": hvol},
+                            {"hoomd.vertices": np.asarray(hoomd["vertices"], dtype=float),
+                             "hoomd.centroid": np.asarray(hoomd["centroid"], dtype=float), "hoomd.volume": float(hoomd["volume"])},
+                            {"hoomd.vertices": 1, "hoomd.centroid": 1, "hoomd.volume": 3}, size):
+                return
+        g_edges = cur.edges()
+        g_areas = cur.floats(cur.one())
+        k = cur.one()
+        g_cents = cur.floats(3 * k).reshape(k, 3)
+        g_total = cur.floats(1)[0]
+        if "edges" in lasts and not same("edges-read", g_edges, lasts["edges"]):
+            return
+        for key, g, deg in (("get_face_area", g_areas, 2), ("face_centroids", g_cents, 1), ("get_face_area_total", g_total, 2)):
+            if key in lasts and not _compare(ctx, opname, case, {key: g}, {key: np.asarray(lasts[key], dtype=float)}, {key: deg}, size):
+                return
+    else:
+        g_vol, g_area = cur.floats(1)[0], cur.floats(1)[0]
+        try:
+            live2 = {"volume": obj.volume, "surface_area": obj.surface_area}
+        except Exception:
+            live2 = None
+        if live2 is not None and not _compare(ctx, opname, case, {"volume": g_vol, "surface_area": g_area}, live2,
+                                              {"volume": 3, "surface_area": 2}, size):
+            return
+        hv = cur.floats(3 * nv).reshape(nv, 3)
+        if hoomd is not None and not _compare(ctx, opname, case, {"hoomd.vertices": hv},
+                                              {"hoomd.vertices": np.asarray(hoomd["vertices"], dtype=float)}, {"hoomd.vertices": 1}, size):
+            return
+        g_edges = cur.edges()
+        if "edges" in lasts and not same("edges-read", g_edges, lasts["edges"]):
+            return
+    if cur.one():
+        g_labels, g_contract = cur.nats(), cur.one()
+        if labels is not None and not same("merge-labels", g_labels, labels):
+            return
+        if not g_contract:
+            ctx.disagree("contract:mergeContract", case, g_labels)
+            return
+
+
+def certificate(ctx, cls, flavour, base_seed):
+    """the decidable hypothesis of `ph_history_of_certificate` on the object's own data (exact, Q mode)."""
+    from common import L
+    obj = base_of(cls, flavour, base_seed)
+    case = {"cls": cls, "flavour": flavour, "base_seed": int(base_seed), "ops": [], "certificate": True}
+    v = np.array(obj.vertices, dtype=float)
+    r = ctx.driver.Q("phgeom.check", L(list(v)), _nl(obj.faces))
+    ctx.count("certificate:closedPolyCheck")
+    if not (len(r) == 1 and r[0] is True):
+        ctx.disagree("certificate:closedPolyCheck", case, [v.tolist(), [[int(i) for i in f] for f in obj.faces]])
+    # negative control: the same faces with one face reversed / one vertex lifted off its plane must be refused
+    faces = [[int(i) for i in f] for f in obj.faces]
+    bad_faces = [faces[0][::-1]] + faces[1:]
+    v2 = v.copy()
+    big = max(range(len(faces)), key=lambda i: len(faces[i]))
+    if len(faces[big]) > 3:
+        v2[faces[big][-1]] += 0.25 * np.cross(v[faces[big][1]] - v[faces[big][0]], v[faces[big][2]] - v[faces[big][0]])
+        r2 = ctx.driver.Q("phgeom.check", L(list(v2)), _nl(faces))
+        if r2[0] is not False:
+            ctx.disagree("certificate:closedPolyCheck:accepts-nonplanar", case, v2.tolist())
+    r3 = ctx.driver.Q("phgeom.check", L(list(v)), _nl(bad_faces))
+    if r3[0] is not False:
+        ctx.disagree("certificate:closedPolyCheck:accepts-misoriented", case, bad_faces)
+
+
 def modelled(cls, ops):
     """histories the state machines cover: everything except merge_faces / sort_faces."""
-    return all(o[0] != "call" or o[1] in MODELLED_CALLS for o in ops)
+    return all(o[0] != "call" or o[1] in MODELLED_CALLS for o in ops)      # (the full machines cover the rest)
 
 
 def run(ctx):
@@ -462,29 +875,37 @@ def run(ctx):
             alpha = alphabet(probe)
             seqs = [[concretise(rng, a)] for a in alpha]
             pairs = list(itertools.product(alpha, repeat=2))
-            if quick:
-                idx = rng.choice(len(pairs), size=min(len(pairs), int(14 * ctx.widen)), replace=False)
+            if quick or flavour == "triangulated":
+                # ('triangulated' is the unshuffled special case of 'triangulated-shuffled': sampled in both tiers)
+                idx = rng.choice(len(pairs), size=min(len(pairs), int((12 if quick else 60) * ctx.widen)), replace=False)
                 pairs = [pairs[i] for i in idx]
             seqs += [[concretise(rng, a), concretise(rng, b)] for a, b in pairs]
-            n3 = 0 if quick else int(60 * ctx.widen)
+            n3 = 0 if quick else int(30 * ctx.widen)
             for _ in range(n3):
                 seqs.append([concretise(rng, alpha[int(rng.integers(len(alpha)))]) for _ in range(3)])
-            nwalk = (1 if quick else 6) * int(ctx.widen)
+            nwalk = (1 if quick else 2) * int(ctx.widen)
             for _ in range(nwalk):
                 ln = int(rng.integers(8, 14)) if quick else int(rng.integers(30, 80))
                 seqs.append([concretise(rng, alpha[int(rng.integers(len(alpha)))]) for _ in range(ln)])
+            if flavour.startswith("triangulated"):
+                # these flavours exist for merge_faces / sort_faces / the caches: pure setter sequences are what the
+                # 'regular' and 'generic' flavours already run (and every observation of a 24-face mesh is expensive)
+                seqs = [q for q in seqs if any(o[0] in ("call", "read") for o in q)]
             for ops in seqs:
                 case = {"cls": cls, "flavour": flavour, "base_seed": base_seed, "ops": ops}
                 ctx.case(case)
                 ctx.count("cls:" + cls)
                 ctx.count("len:%d" % min(len(ops), 4))
-                run_history(ctx, cls, flavour, base_seed, ops)
-                if modelled(cls, ops):
+                run_history(ctx, cls, flavour, base_seed, ops, prefixes_covered=(not quick and 2 <= len(ops) <= 3))
+                if modelled(cls, ops) and cls not in FULL_CLASSES:
+                    # (for Polyhedron / ConvexPolyhedron the full machines below cover the same steps)
                     model_history(ctx, base_seed, flavour, ops, cls)
+                if cls in FULL_CLASSES:
+                    model_history_full(ctx, base_seed, flavour, ops, cls)
             if cls in ("ConvexPolyhedron", "Polyhedron") and flavour == "generic":
                 # the handedness of the eigh result depends on the shape: more base shapes for diagonalize_inertia
                 # (alone, after another diagonalize, and followed by a size setter and to_hoomd)
-                for _ in range(int((8 if quick else 40) * ctx.widen)):
+                for _ in range(int((6 if quick else 16) * ctx.widen)):
                     bs = int(rng.integers(1 << 30))
                     for ops in ([["call", "diagonalize_inertia", None]],
                                 [["call", "diagonalize_inertia", None], ["setfac", "volume", 1.7],
@@ -495,20 +916,67 @@ def run(ctx):
                         ctx.count("extra-diagonalize")
                         run_history(ctx, cls, flavour, bs, ops)
                         model_history(ctx, bs, flavour, ops, cls)
+                        model_history_full(ctx, bs, flavour, ops, cls)
             if cls == "Polyhedron" and flavour == "triangulated-shuffled":
                 # merge_faces / sort_faces depend on accidents of labelling and face order (global flip needed or not,
                 # start face): more base shapes, with every cached observable read before AND after (run_history does)
-                for _ in range(int((10 if quick else 60) * ctx.widen)):
+                for _ in range(int((5 if quick else 12) * ctx.widen)):
                     bs = int(rng.integers(1 << 30))
                     for ops in ([["call", "merge_faces", None]],
                                 [["call", "sort_faces", None], ["call", "merge_faces", None], ["setfac", "volume", 0.5]],
                                 [["setfac", "surface_area", 2.0], ["call", "merge_faces", None], ["call", "to_hoomd", None],
-                                 ["call", "sort_faces", None]]):
+                                 ["call", "sort_faces", None]],
+                                [["read", "edges", None], ["call", "merge_faces", None], ["read", "edges", None],
+                                 ["call", "diagonalize_inertia", None], ["call", "sort_faces", None], ["read", "edges", None]]):
                         case = {"cls": cls, "flavour": flavour, "base_seed": bs, "ops": ops}
                         ctx.case(case)
                         ctx.count("cls:" + cls)
                         ctx.count("extra-merge")
                         run_history(ctx, cls, flavour, bs, ops)
+                        model_history_full(ctx, bs, flavour, ops, cls)
+            if cls == "ConvexPolyhedron" and flavour == "generic":
+                # (a) reads that store per-simplex data, then a mutator, then the reads again; (b) the inherited
+                # merge_faces / the sort_faces override on shapes with two faces coplanar within merge_faces' default
+                # tolerance (1e-8) but not within the constructor's (2e-15)
+                for _ in range(int((6 if quick else 16) * ctx.widen)):
+                    bs = int(rng.integers(1 << 30))
+                    f = float(rng.choice([0.5, 2.0, 1.7]))
+                    for fl, ops in (("generic", [["read", "get_face_area", None], ["setfac", "volume", f],
+                                                 ["read", "get_face_area_total", None], ["read", "edges", None],
+                                                 ["call", "sort_faces", None], ["read", "face_centroids", None],
+                                                 ["setvec", "centroid", [0.5, -1.0, 2.0]], ["read", "get_face_area", None]]),
+                                    ("generic", [["read", "face_centroids", None], ["call", "diagonalize_inertia", None],
+                                                 ["call", "merge_faces", None], ["setfac", "surface_area", f],
+                                                 ["read", "face_centroids", None], ["read", "edges", None]]),
+                                    ("near-coplanar", [["call", "merge_faces", None]]),
+                                    ("near-coplanar", [["read", "get_face_area", None], ["call", "sort_faces", None],
+                                                       ["call", "merge_faces", None], ["read", "get_face_area", None]])):
+                        case = {"cls": cls, "flavour": fl, "base_seed": bs, "ops": ops}
+                        ctx.case(case)
+                        ctx.count("cls:" + cls)
+                        ctx.count("extra-cp-caches:" + fl)
+                        run_history(ctx, cls, fl, bs, ops)
+                        model_history_full(ctx, bs, fl, ops, cls)
+            if cls == "Polyhedron" and flavour == "generic":
+                # certificate of the hypothesis of the Lean theorem `ph_coherent_history` (`PHGeom`: closed, planar,
+                # consistently oriented faces, positive volume) on the implementation's own vertices and faces, exactly
+                # over Q (integer-coordinate shapes: their faces are EXACTLY planar), then histories from them
+                for k in range(int((4 if quick else 12) * ctx.widen)):
+                    bs = int(rng.integers(1 << 30))
+                    fl = "lattice" if k % 2 == 0 else "lattice-triangulated"
+                    certificate(ctx, cls, fl, bs)
+                    for ops in ([["setfac", "volume", 2.0], ["setvec", "centroid", [1.0, -2.0, 0.5]],
+                                 ["call", "diagonalize_inertia", None], ["call", "to_hoomd", None],
+                                 ["setfac", "surface_area", 0.5]],
+                                [["read", "edges", None], ["call", "merge_faces", None], ["read", "edges", None],
+                                 ["setfac", "volume", 0.5], ["call", "sort_faces", None]]):
+                        case = {"cls": cls, "flavour": fl, "base_seed": bs, "ops": ops}
+                        ctx.case(case)
+                        ctx.count("cls:" + cls)
+                        ctx.count("extra-lattice")
+                        run_history(ctx, cls, fl, bs, ops)
+                        model_history(ctx, bs, fl, ops, cls)
+                        model_history_full(ctx, bs, fl, ops, cls)
             if cls.startswith("ConvexSphero"):
                 # the rounding-radius guard (negative / nan refused, zero accepted) and a rescale after it
                 for extra in ([["setabs", "radius", -1.0]], [["setabs", "radius", float("nan")]],
@@ -519,7 +987,12 @@ def run(ctx):
 def replay(ctx, payload):
     case = payload.get("case", payload)
     ctx.case(case)
+    if case.get("certificate"):
+        certificate(ctx, case["cls"], case["flavour"], case["base_seed"])
+        return
     if not case.get("model"):
         run_history(ctx, case["cls"], case["flavour"], case["base_seed"], case["ops"])
-    if modelled(case["cls"], case["ops"]):
+    if modelled(case["cls"], case["ops"]) and not case.get("full"):
         model_history(ctx, case["base_seed"], case["flavour"], case["ops"], case["cls"])
+    if case["cls"] in FULL_CLASSES:
+        model_history_full(ctx, case["base_seed"], case["flavour"], case["ops"], case["cls"])
